@@ -459,6 +459,7 @@ def bounded(S):
                                 '%d tensors' % len(Cs), len(Cs), fails)
     _bounded_near_spherical(S, TM)
     _bounded_jvp(S, TM)
+    _bounded_dense(S)
 
 
 def _bounded_near_spherical(S, TM):
@@ -511,6 +512,47 @@ def _bounded_near_spherical(S, TM):
         S.bounded_check('eigen_sym33_unit/bounded-nearly-triple-eigenvalues-keep-their-deviatoric-part[%s]' % mode,
                         'A = c (I + eps D), eps in [1e-10, 1e-6], generic and in-plane orientations: deviatoric part of V diag(lam) V^T, log_symm(A), sqrt_symm(A) to 1e-3 of its own size',
                         '%d tensors' % n, n, fails[:3])
+
+
+def _bounded_dense(S):
+    """general (non-symmetric) matrices with positive spectrum, size 2..10: the iterative dense square root and logarithm (Denman-Beavers,
+    inverse scaling and squaring with Pade approximants: not exact in R) against their defining identities and scipy references"""
+    import scipy.linalg as sl
+    from optimism import LinAlg
+    rng = onp.random.default_rng(S.seed + 1215)
+    n = 16 if S.tier == 'quick' else 300
+    fsq, flg = jax.jit(LinAlg.sqrtm), jax.jit(LinAlg.logm_iss)
+    fails = []
+    for k in range(n):
+        dim = int(rng.integers(2, 11))
+        Pm = onp.eye(dim) + 0.3 * rng.standard_normal((dim, dim)) / onp.sqrt(dim)
+        lam_ = 10 ** rng.uniform(-1.5, 1.5, dim)
+        A = Pm @ onp.diag(lam_) @ onp.linalg.inv(Pm)
+        Hm = rng.standard_normal((dim, dim))
+        pr = {}
+        try:
+            Sq = onp.asarray(fsq(jnp.asarray(A)))
+            Lg = onp.asarray(flg(jnp.asarray(A)))
+            ref = sl.logm(A)
+            pr['sqrtm squared'] = onp.linalg.norm(Sq @ Sq - A) / onp.linalg.norm(A)
+            pr['expm(logm)'] = onp.linalg.norm(sl.expm(Lg) - A) / onp.linalg.norm(A)
+            pr['logm vs scipy'] = onp.linalg.norm(Lg - ref) / max(1e-300, onp.linalg.norm(ref))
+            _, dL = jax.jvp(LinAlg.logm_iss, (jnp.asarray(A),), (jnp.asarray(Hm),))
+            h = 1e-6
+            fd = (sl.logm(A + h * Hm) - sl.logm(A - h * Hm)) / (2 * h)
+            pr['logm derivative rule'] = onp.linalg.norm(onp.asarray(dL) - fd) / onp.linalg.norm(fd)
+            _, dS = jax.jvp(LinAlg.sqrtm, (jnp.asarray(A),), (jnp.asarray(Hm),))
+            dS = onp.asarray(dS)
+            pr['sqrtm derivative rule (Sylvester)'] = onp.linalg.norm(dS @ Sq + Sq @ dS - Hm) / onp.linalg.norm(Hm)
+        except Exception as ex:
+            pr = {'%s: %s' % (type(ex).__name__, str(ex)[:120]): float('inf')}
+        tol = {'sqrtm squared': 1e-11, 'expm(logm)': 1e-7, 'logm vs scipy': 1e-6, 'logm derivative rule': 1e-5, 'sqrtm derivative rule (Sylvester)': 1e-9}
+        bad = {a: float(b) for a, b in pr.items() if not b < tol.get(a, 0)}
+        if bad:
+            fails.append(dict(input=dict(case=k, seed=S.seed + 1215, size=dim, eigenvalues=lam_.tolist()), observed='relative errors %s' % bad))
+    S.bounded_check('LinAlg/bounded-dense-square-root-and-logarithm-identities',
+                    'real LinAlg.sqrtm / logm_iss on non-symmetric matrices with positive spectrum (eigenvalues over three decades), size 2..10: sqrtm(A)^2 = A (1e-11), expm(logm(A)) = A (1e-7), logm vs scipy (1e-6), derivative rules vs central differences / the Sylvester equation',
+                    '%d matrices' % n, n, fails[:3])
 
 
 def _bounded_jvp(S, TM):
